@@ -4,35 +4,75 @@ THEOREM_FILE = "Properties/C06.v"
 NEEDS_KNUT = True
 
 RULE = ("tie-rich generated journals (few days, many same-day directives, duplicated transactions, several price paths) spread over "
-        "an include tree of up to 5 files; one of balance (valued or not, with and without -a), print, transcode, check is run 8 "
-        "times with GOMAXPROCS in {1,2,16} and, when the verif hooks are present, different KNUT_VERIF_SCHED seeds; all stdouts and "
-        "exit classes must be identical.  Non-trivial: every case (the generator always produces same-day ties); distinct by input.")
-TRUSTED_BASE = ["Coq 8.16.1 kernel", "extraction + drv_c05.ml", "harness c05.go (obsC06: repeated runs, include-tree writer)",
+        "an include tree of up to 5 files. C06.repeat: one of balance (valued or not, with and without -a), print, transcode, check is "
+        "run 8 times with GOMAXPROCS in {1,2,16} and, when the verif hooks are present, different KNUT_VERIF_SCHED seeds; all stdouts "
+        "and exit classes must be identical. C06.order: `knut print` is run 6 times in the same way (all runs identical), and its "
+        "stdout must equal, byte for byte, the extracted model Source.print_tagged = Build with the source sort (build_sorted) + "
+        "journal.Print, evaluated on the directives tagged with (path of their file, position) and handed over in REVERSED order. "
+        "Non-trivial: every C06.repeat case (the generator always produces same-day ties); a C06.order case when more than one file "
+        "holds directives; distinct by input.")
+TRUSTED_BASE = ["Coq 8.16.1 kernel", "extraction + drv_c05.ml (C06.repeat) + drv_c06.ml (C06.order) + drv_journal.ml (decoder)",
+                "harness c05.go (obsC06: repeated runs, include-tree writer) and c06.go (obsC06Order; layoutPath = the path under which "
+                "knut knows an included file)",
                 "Go scheduler and map seeds are sampled, not enumerated"]
 ASSUMPTIONS = ["float summation order in `portfolio weights` is outside this check (C20)"]
-TECHNIQUE = ("Coq: invariance of every model function that stands for a Go map range under permutation of the entries; repeated runs of "
-             "the binary under varied GOMAXPROCS / schedule perturbation")
-LEVEL_TEXT = ("Theorems (Properties/C06.v): sums over report trees, totals and closing/adjustment generation are invariant under "
-              "permutation of map entries (value level), sorting with the repaired tie-break is a function of the multiset. "
-              "Schedules and map seeds of the real runtime are sampled (partial).")
-LEVEL_NOTE = "Trusted: kernel, extraction, harness; Go runtime sampled."
+TECHNIQUE = ("Coq: (A) journal.Builder on directives tagged with their source position, Build with the stable source sort of "
+             "69e47a8 (Model/Source.v); a stable sort by a strict weak order is the unique solution of its contract and depends only on "
+             "the per-class subsequences (Proofs/StableSort.v); Build = the builder of Model/Journal.v on the source-ordered sequence "
+             "(Proofs/DeterminismProofs.v). (B) permutation invariance of every model function that stands for a Go map range "
+             "(Proofs/MapOrderProofs.v, InferOrder.v, PriceProofs.v). Check: repeated runs of the binary under varied GOMAXPROCS / "
+             "schedule perturbation")
+LEVEL_TEXT = ("Theorems (Properties/C06.v, all closed under the global context). "
+              "A, arrival order: C06_arrival -- for every permutation of the tagged directives (equal source position => equal "
+              "directive) Build() returns the same journal (Leibniz equality of all day lists and of the period); "
+              "C06_arrival_classes / C06_arrival_files -- same for whole files arriving as batches in any order, accrual parts "
+              "(several transactions at one offset) and files included twice covered; C06_build_is_source_order_load -- that journal "
+              "is the one Model/Journal.v builds from the directives in (path, offset) order; C06_commands / "
+              "C06_command_is_source_order -- balance (table, csv, text), check, print, transcode, portfolio weights and returns are "
+              "functions of that journal (C06_*_factor: they are the commands of Model/Cli*.v after `load`), hence equal outputs; "
+              "C06_single_file / C06_in_source_order -- one file keeps its textual order, the existing model is the canonical-order "
+              "instance; C06_slice_stable_meets_contract / _unique -- the model's insertion sort is the unique list satisfying the "
+              "contract of sort.SliceStable; C06_touch_then_build; C06_pinned_arrival_refuted -- without the sort two arrival orders "
+              "print differently (F15). "
+              "B, map iteration order (model functions that stand for a Go `range` over a map are invariant under permutation of the "
+              "entries): C06_map_lookup; C06_prices_order (Normalize; pinned DFS: C06_dfs_refuted, F3); C06_valuate_loop and "
+              "C06_close_loop (same adjustment / closing transactions as a multiset, same failure class); C06_report_totals, "
+              "C06_children_order, C06_sort_total (every report total is independent of the insertion / children order, as "
+              "rationals); C06_weight_order (weights are the same decimal); C06_sort_siblings, C06_sort_top (the sort with the name "
+              "tie-break of bffd269 gives one list for every enumeration of the children map, and it is the model's list; "
+              "C06_pinned_sort_refuted, F6); C06_infer_candidates; C06_weights_adds. "
+              "Partial: the Go scheduler and map seeds are sampled by the check, not enumerated; for the Valuate/CloseAccounts loops "
+              "byte equality of the final report is proved only through the totals (not through the renderer); which erroneous "
+              "directive an error message names (stderr) is outside.")
+LEVEL_NOTE = ("Trusted: kernel, extraction, harness; Go runtime sampled. Outside the rational model: float64 summation order in "
+              "`portfolio weights`/`returns`; `portfolio weights` without -a sorts siblings by weight with sort.Slice and no "
+              "tie-break (lib/reports/weights/weights.go SortWeighted) -- equal weights come out in map order; not exercised by "
+              "this check's commands (see findings/C06-weights-ties.md).")
 
 
 def plan(tier, seed):
     if tier == "quick":
-        return [("C06", seed, 200, [])]
-    return [("C06", seed + k, 1500, []) for k in range(4)]
+        return [("C06", seed, 200, []), ("C06order", seed, 80, [])]
+    return [("C06", seed + k, 1500, []) for k in range(4)] + [("C06order", seed + k, 600, []) for k in range(4)]
 
 
 def search_plan(seed):
-    return [("C06", seed + 100, 400, [])]
+    return [("C06", seed + 100, 400, []), ("C06order", seed + 100, 200, [])]
 
 
 def compare(c):
+    if c.op == "C06.order":
+        # observed "<runs verdict> | <OK stdout | ERR | PANIC ..>": the binary's print against build_sorted + print_journal
+        parts = c.observed.split(" | ", 1)
+        return len(parts) == 2 and c.model == parts[1]
     return True
 
 
 def nontrivial(c):
+    if c.op == "C06.order":
+        # more than one file holds directives
+        head = c.input.split(" | ")[0].split(" # ")
+        return len(head) == 3 and len(set(head[2].split(","))) > 1
     return True
 
 
